@@ -58,18 +58,32 @@ func (c *Ctx) checkPrepareMessage() {
 		// value is a phi/ local of GrpToChn(..) on the chan edge and original(uid) otherwise
 		okV := core.Derives(st.Val, core.Or(core.IsCallTo(grpToChn), core.IsCallTo(original)), true)
 		r.Check(okV, "C02.3-recipient-view", fk(prep)+": Data.Topic = channel spelling or Topic.original(uid)", c.pos(st), "", "a {data} copy is given a topic name that is neither the recipient's own name for the topic nor the channel spelling")
-		// the two producers sit on the right edges
-		for _, ci := range core.CallsTo(prep, grpToChn) {
-			ok, cnt := core.GuardedBy(prep, ci.(ssa.Instruction), gChan)
-			r.Check(ok && cnt[0] > 0, "C02.3-recipient-view", fk(prep)+": GrpToChn only for channel readers", c.pos(ci), "", "the channel spelling is used for an ordinary subscriber")
-		}
-		for _, ci := range core.CallsTo(prep, original) {
-			ok, cnt := core.GuardedBy(prep, ci.(ssa.Instruction), core.BoolGuard("!isChanSub", func(v ssa.Value) bool { return v == ssa.Value(isChanSub) }, false))
-			args := core.CallArgs(ci.Common())
-			_, uidIsParam := core.Strip(args[1]).(*ssa.Parameter)
-			r.Check(ok && cnt[0] > 0 && uidIsParam, "C02.3-recipient-view", fk(prep)+": Topic.original(<recipient uid>) for ordinary subscribers", c.pos(ci), "", "the recipient-specific topic name is computed for a user other than the recipient")
-		}
 	}
+	// the two producers sit on the right edges (also inside an extracted naming helper, whose
+	// channel-flag parameter stands for the fix-up's)
+	isFlag := func(v ssa.Value) bool { return core.Strip(v) == ssa.Value(isChanSub) }
+	nGrp, nOrig := 0, 0
+	c.noDescend = map[*ssa.Function]bool{c.ssaMethod("server", "Topic", "original"): true}
+	defer func() { c.noDescend = nil }()
+	c.withCallees(prep, 2, func(owner *ssa.Function, in ssa.Instruction, _ ssa.Instruction) {
+		ci, ok := in.(*ssa.Call)
+		if !ok {
+			return
+		}
+		switch core.CalleeOf(&ci.Call) {
+		case grpToChn:
+			nGrp++
+			ok, cnt := core.GuardedBy(owner, ci, core.BoolGuard("isChanSub", isFlag, true))
+			r.Check(ok && cnt[0] > 0, "C02.3-recipient-view", fk(prep)+": GrpToChn only for channel readers", c.pos(ci), "", "the channel spelling is used for an ordinary subscriber")
+		case original:
+			nOrig++
+			ok, cnt := core.GuardedBy(owner, ci, core.BoolGuard("!isChanSub", isFlag, false))
+			args := core.CallArgs(&ci.Call)
+			_, uidIsParam := core.Strip(args[1]).(*ssa.Parameter)
+			r.Check(ok && cnt[0] > 0 && uidIsParam && core.Strip(args[1]).Parent() == prep, "C02.3-recipient-view", fk(prep)+": Topic.original(<recipient uid>) for ordinary subscribers", c.pos(ci), "", "the recipient-specific topic name is computed for a user other than the recipient")
+		}
+	})
+	r.Check(nGrp > 0 && nOrig > 0, "C02.3-recipient-view", fk(prep)+": both name producers present", "-", "", "the fix-up no longer computes the channel spelling / the recipient's own topic name")
 }
 
 func (c *Ctx) checkContentUnaltered() {
